@@ -77,6 +77,9 @@ def classify_sites(body_msk, cur_type, known_types):
             pre2 = pre[:-1].rstrip()
             if re.search(r'(?<![\w.])self$', pre2):
                 yield (m.start(), m.end(), 'type', cur_type, name)
+            elif re.search(r'(?<![\w.])self\s*\.\s*\w+(?:\s*\.\s*\w+\s*(?:\([^()]*\))?)*$', pre2):
+                # method of a field of self: never a method of the current type itself
+                yield (m.start(), m.end(), 'anyfield', cur_type, name)
             else:
                 yield (m.start(), m.end(), 'any', None, name)
         elif pre.endswith('::'):
@@ -138,7 +141,8 @@ def maypanic_set(texts):
                 continue
             for (_, _, kind, t, name) in classify_sites(fi.body, fi.type, known_types):
                 hit = (kind == 'any' and name in anyn) or (kind == 'type' and (t, name) in may) or \
-                      (kind == 'free' and (None, name) in may)
+                      (kind == 'free' and (None, name) in may) or \
+                      (kind == 'anyfield' and any(n2 == name and t2 != t for (t2, n2) in may))
                 if hit:
                     may.add((fi.type, fi.name))
                     changed = True
@@ -165,7 +169,8 @@ def make_unwind(cfg, may_known, type_prefix='Storage'):
             sites = []
             for (s, e, kind, t, name) in classify_sites(body_m, cur_type, known_types):
                 hit = (kind == 'any' and name in anyn) or (kind == 'type' and (t, name) in may) or \
-                      (kind == 'free' and (None, name) in may)
+                      (kind == 'free' and (None, name) in may) or \
+                      (kind == 'anyfield' and any(n2 == name and t2 != t for (t2, n2) in may))
                 if hit:
                     sites.append((s, name))
             for m in PANIC_PRIMS.finditer(body_m):
